@@ -300,7 +300,7 @@ pub fn pm1_impl(n: &Uint, b1: u64, b2: f64, verbosity: Verbosity) -> Option<(Vec
                     expblock = 1;
                 }
             }
-            if stop || expblock_lg.bits() > 1024 - 32 {
+            if stop || expblock_lg.bits() > 1024 - 64 {
                 #[cfg(yamaquasi_verif)]
                 crate::verif::ev(|| format!("\"op\":\"pm1_blk\",\"kind\":\"w1024\",\"v\":\"{}\"", expblock_lg));
                 g = exp_modn_large(&zn, &g, &expblock_lg);
